@@ -4,7 +4,7 @@
 # the pinned baseline there (BASELINE=1), runs the named checks against it, and
 # removes the scratch copy.  Prints one DETECTED/MISSED line per check.
 set -u
-PATCH="$1"; shift
+PATCH="$(readlink -f "$1")"; shift
 D=$(mktemp -d /tmp/pmc-mut-XXXXXX)
 trap 'rm -rf "$D"' EXIT
 rsync -a --exclude .git /repo/ "$D/repo/"
